@@ -333,6 +333,15 @@ class Compiler:
         if st.orelse:
             raise Untranslatable('for-else')
         it = st.iter
+        # `for x in (A, B):` over a literal of plain names: the body, once per element
+        if isinstance(it, (ast.Tuple, ast.List)) and it.elts and isinstance(st.target, ast.Name) and not in_loop \
+                and all(isinstance(e, (ast.Name, ast.Attribute, ast.Constant)) and self.to_E(e, sc) is None
+                        for e in it.elts):
+            sc[st.target.id] = Local('atom')
+            out = []
+            for _ in it.elts:
+                out += self.block(st.body, sc, False)
+            return out
         # `for k, v in X.items()`: v is a list of X
         if isinstance(it, ast.Call) and isinstance(it.func, ast.Attribute) and it.func.attr in ('items', 'values'):
             tbl = self.to_E(it.func.value, sc)
